@@ -13,24 +13,29 @@ Open Scope Z_scope.
 
 Definition str_ok (s : bytes) : bool := strict_utf8 s || (go_utf16Length s <? 0).
 
+(* since utf16Length is strict (fix in io/encode.go) every Go string is fine: it is either
+   UTF-8 (string tags) or rejected by the scan (written as bytes) *)
+Lemma str_ok_all s : str_ok s = true.
+Proof.
+  unfold str_ok. destruct (strict_utf8 s) eqn:E; [reflexivity|].
+  rewrite (go_utf16Length_nonstrict s E). reflexivity.
+Qed.
+
 Definition fval_ok (f : fval) : bool := match f with FFin txt => dbl_ok txt | _ => true end.
 
 Fixpoint gval_ok (v : gval) : bool :=
   match v with
   | GFloat f => fval_ok f
   | GComplex re im _ => fval_ok re && fval_ok im
-  | GString s => str_ok s
   | GSlice vs | GList vs => forallb gval_ok vs
   | GMap kvs => forallb gval_ok kvs && Nat.even (length kvs)
   | GStruct name fields vs => strict_utf8 name && forallb strict_utf8 fields && forallb gval_ok vs
-  | GAnon fields vs => forallb str_ok fields && forallb gval_ok vs && (length fields =? length vs)%nat
+  | GAnon fields vs => forallb gval_ok vs && (length fields =? length vs)%nat
   | GTime y mo d h mi s ns utc =>
       (0 <=? h) && (h <? 100) && (0 <=? mi) && (mi <? 100) && (0 <=? s) && (s <? 100) &&
       (0 <=? ns) && (ns <? 1000000000)
   | GUuid txt => guid_ok txt
   | GBigFloat txt => dbl_ok txt
-  | GBigRat None txt => str_ok txt
-  | GError msg => str_ok msg
   | _ => true
   end.
 
@@ -190,20 +195,20 @@ Proof.
 Qed.
 
 Lemma enc_anon_ok rec : rec_ok rec -> forall fields vs st st' ws,
-  forallb str_ok fields = true -> forallb gval_ok vs = true -> length fields = length vs ->
+  forallb gval_ok vs = true -> length fields = length vs ->
   enc_anon_fields simple rec st fields vs = inl (Some (st', ws)) ->
   forallb tok_ok ws = true /\ Nat.even (length ws) = true.
 Proof.
-  intros Hrec. induction fields as [|f fields IH]; intros vs st st' ws Hf Hv Hl H.
+  intros Hrec. induction fields as [|f fields IH]; intros vs st st' ws Hv Hl H.
   - destruct vs; [|discriminate]. cbn in H. inversion H; subst. split; reflexivity.
   - destruct vs as [|v vs]; [discriminate|]. cbn [enc_anon_fields] in H.
-    cbn [forallb] in Hf, Hv. apply andb_prop in Hf. destruct Hf as [Hf1 Hf2].
+    cbn [forallb] in Hv. pose proof (str_ok_all f) as Hf1.
     apply andb_prop in Hv. destruct Hv as [Hv1 Hv2].
     destruct (enc_string simple st f) as [st1 wf] eqn:Es.
     destruct (rec st1 v) as [st2 w| |] eqn:E; try discriminate.
     destruct (enc_anon_fields simple rec st2 fields vs) as [[[st3 ws']|]|] eqn:E2; try discriminate.
     inversion H; subst. cbn [length] in Hl.
-    destruct (IH _ _ _ _ Hf2 Hv2 ltac:(lia) E2) as [IH1 IH2].
+    destruct (IH _ _ _ _ Hv2 ltac:(lia) E2) as [IH1 IH2].
     cbn [forallb length]. rewrite (enc_string_ok _ _ _ _ Hf1 Es), (Hrec _ _ _ _ Hv1 E), IH1.
     split; [reflexivity|]. exact IH2.
 Qed.
@@ -237,10 +242,9 @@ Proof.
       * inversion H; subst. cbn [tok_ok]. rewrite Hname, Hfields.
         destruct (enc_seq_ok rec Hrec _ _ _ _ Hvs E) as [H1 _]. rewrite H1. reflexivity.
       * exfalso. eapply enc_seq_inr; eauto.
-  - cbn [gval_ok] in Hok. apply andb_prop in Hok. destruct Hok as [Hok Hl].
-    apply andb_prop in Hok. destruct Hok as [Hf Hvs]. apply Nat.eqb_eq in Hl.
+  - cbn [gval_ok] in Hok. apply andb_prop in Hok. destruct Hok as [Hvs Hl]. apply Nat.eqb_eq in Hl.
     destruct (enc_anon_fields simple rec (register simple st r) fields vs) as [[[st2 ws]|]|] eqn:E; try discriminate.
-    + inversion H; subst. cbn [tok_ok]. destruct (enc_anon_ok rec Hrec _ _ _ _ _ Hf Hvs Hl E) as [H1 H2].
+    + inversion H; subst. cbn [tok_ok]. destruct (enc_anon_ok rec Hrec _ _ _ _ _ Hvs Hl E) as [H1 H2].
       rewrite H1, H2. reflexivity.
     + exfalso. eapply enc_anon_inr; eauto.
   - destruct (enc_time y mo d h mi s ns utc) as [w0|] eqn:E; [|discriminate].
@@ -265,11 +269,11 @@ Proof.
     destruct im_zero; inversion H; subst; [apply enc_float_ok; exact Hre|].
     cbn [tok_ok forallb]. rewrite (enc_float_ok _ Hre), (enc_float_ok _ Him). reflexivity.
   - destruct (enc_string simple st s) as [st1 w1] eqn:E. inversion H; subst.
-    eapply enc_string_ok; eauto.
+    eapply enc_string_ok; [apply str_ok_all | eauto].
   - inversion H; reflexivity.
   - inversion H; subst. cbn [tok_ok]. exact Hok.
-  - destruct num; inversion H; subst; [reflexivity|]. apply string_wire_ok. exact Hok.
-  - inversion H; subst. cbn [tok_ok]. apply string_wire_ok. exact Hok.
+  - destruct num; inversion H; subst; [reflexivity|]. apply string_wire_ok. apply str_ok_all.
+  - inversion H; subst. cbn [tok_ok]. apply string_wire_ok. apply str_ok_all.
   - destruct (hlookup hp addr) as [pv|] eqn:El; [|discriminate].
     pose proof (hlookup_ok _ _ _ Hh El) as Hpv.
     destruct (tracked pv).
@@ -297,8 +301,7 @@ Qed.
 
 End Mode.
 
-(* the remaining gap, as a witness: a structurally well-formed non-UTF-8 string goes out under 'u' *)
-Lemma string_tag_refuted :
-  exists s, go_utf16Length s = 1 /\ strict_utf8 s = false /\
-            tok_ok (snd (enc_string true einit s)) = false.
-Proof. exists [Byte.xc0; Byte.x80]. vm_compute. repeat split; reflexivity. Qed.
+(* every Go string goes out either under a string tag with strict UTF-8 content or as bytes *)
+Lemma string_tags_only_utf8 simple st s st' w :
+  enc_string simple st s = (st', w) -> tok_ok w = true.
+Proof. apply enc_string_ok. apply str_ok_all. Qed.
